@@ -49,6 +49,27 @@ func main() {
 	flag.Parse()
 	if *pkgs != "" {
 		targets = strings.Split(*pkgs, ",")
+	} else {
+		// every package of the tree except meta/* (kept as atomic steps, see
+		// DESIGN 5.1): a refactored tree may have moved code into new packages
+		// (an in-repo worker pool, say), and goroutines started there must be
+		// tasks of the simulator too
+		targets = nil
+		filepath.Walk(root, func(path string, info os.FileInfo, err error) error {
+			if err != nil || !info.IsDir() {
+				return nil
+			}
+			rel, _ := filepath.Rel(root, path)
+			base := filepath.Base(path)
+			if rel != "." && (strings.HasPrefix(base, ".") || base == "vendor" || base == "testdata") {
+				return filepath.SkipDir
+			}
+			if rel == "meta" || strings.HasPrefix(filepath.ToSlash(rel), "meta/") {
+				return filepath.SkipDir
+			}
+			targets = append(targets, rel)
+			return nil
+		})
 	}
 	if root == "" {
 		fmt.Fprintln(os.Stderr, "usage: siminstr -root DIR -sites FILE")
@@ -218,9 +239,15 @@ func (in *instr) stmt(s ast.Stmt) ast.Stmt {
 		// `go f(a, b)` evaluates f, a and b in the calling goroutine: keep that.
 		//   { _simf := f; _sima0, _sima1 := a, b; simrt.Go(func() { _simf(_sima0, _sima1) }) }
 		var lhs, rhs []ast.Expr
-		lhs = append(lhs, ast.NewIdent("_simf"))
-		rhs = append(rhs, x.Call.Fun)
 		call := &ast.CallExpr{Fun: ast.NewIdent("_simf"), Ellipsis: x.Call.Ellipsis}
+		if id, ok := x.Call.Fun.(*ast.Ident); ok && id.Obj == nil && builtinFuncs[id.Name] {
+			call.Fun = x.Call.Fun // `go panic(v)`: a builtin cannot be bound to a variable
+		} else if sel, ok := x.Call.Fun.(*ast.SelectorExpr); ok && isIdent(sel.X, "simrt") {
+			call.Fun = x.Call.Fun // `go close(ch)`, already rewritten to the generic simrt.Close
+		} else {
+			lhs = append(lhs, ast.NewIdent("_simf"))
+			rhs = append(rhs, x.Call.Fun)
+		}
 		for i, a := range x.Call.Args {
 			id := ast.NewIdent(fmt.Sprintf("_sima%d", i))
 			lhs = append(lhs, id)
@@ -230,20 +257,36 @@ func (in *instr) stmt(s ast.Stmt) ast.Stmt {
 		if x.Call.Ellipsis != token.NoPos {
 			call.Ellipsis = 1
 		}
+		goCall := &ast.ExprStmt{X: &ast.CallExpr{
+			Fun: &ast.SelectorExpr{X: ast.NewIdent("simrt"), Sel: ast.NewIdent("Go")},
+			Args: []ast.Expr{&ast.FuncLit{
+				Type: &ast.FuncType{Params: &ast.FieldList{}},
+				Body: &ast.BlockStmt{List: []ast.Stmt{&ast.ExprStmt{X: call}}},
+			}},
+		}}
+		if len(lhs) == 0 {
+			return goCall
+		}
 		return &ast.BlockStmt{List: []ast.Stmt{
 			&ast.AssignStmt{Lhs: lhs, Tok: token.DEFINE, Rhs: rhs},
-			&ast.ExprStmt{X: &ast.CallExpr{
-				Fun: &ast.SelectorExpr{X: ast.NewIdent("simrt"), Sel: ast.NewIdent("Go")},
-				Args: []ast.Expr{&ast.FuncLit{
-					Type: &ast.FuncType{Params: &ast.FieldList{}},
-					Body: &ast.BlockStmt{List: []ast.Stmt{&ast.ExprStmt{X: call}}},
-				}},
-			}},
+			goCall,
 		}}
 	default:
 		in.exprsIn(s)
 	}
 	return s
+}
+
+func isIdent(e ast.Expr, name string) bool {
+	id, ok := e.(*ast.Ident)
+	return ok && id.Name == name
+}
+
+// builtinFuncs are the predeclared functions, which cannot be used as values.
+var builtinFuncs = map[string]bool{
+	"panic": true, "print": true, "println": true, "close": true, "delete": true,
+	"copy": true, "clear": true, "recover": true, "append": true, "len": true, "cap": true,
+	"min": true, "max": true, "new": true, "make": true, "complex": true, "real": true, "imag": true,
 }
 
 // exprsIn visits the function literals (and type references) inside a simple
